@@ -678,10 +678,13 @@ pub fn c06_skip(h: &History) -> Verdict {
             }
         }
     }
-    // the skip never causes duplicates, disorder or wrong indices
-    no_duplicates(h)?;
-    c04_invariants(h)?;
-    c02_index_fidelity(h)?;
+    // "the skip never causes a position to be delivered twice, out of order, or with a wrong index":
+    // only histories that contain a skip are this property's business
+    if h.ops.iter().any(|o| o.tag == Tag::Skip) {
+        no_duplicates(h)?;
+        c04_invariants(h)?;
+        c02_index_fidelity(h)?;
+    }
     Ok(())
 }
 
